@@ -40,26 +40,26 @@ variable (M B Kk : Fin n → Fin n → K) (bpos : Fin r → Fin n) (qpos : Fin n
 
 theorem cbtfCol_a_bpos (hp : IsPartition bpos qpos loc) (l : Fin r) :
     (cbtfCol M B Kk bpos qpos loc solveQ sc a).a (bpos l) = a l := by
-  simp [cbtfCol, memo_eq, hp.loc_bpos]
+  simp [cbtfCol, look_tab, hp.loc_bpos]
 
 theorem cbtfCol_d_bpos (hp : IsPartition bpos qpos loc) (l : Fin r) :
     (cbtfCol M B Kk bpos qpos loc solveQ sc a).d (bpos l) = sc.c2 * a l := by
-  simp [cbtfCol, memo_eq, hp.loc_bpos]
+  simp [cbtfCol, look_tab, hp.loc_bpos]
 
 theorem cbtfCol_d_qpos (hp : IsPartition bpos qpos loc) (k : Fin nq) :
     (cbtfCol M B Kk bpos qpos loc solveQ sc a).d (qpos k)
       = solveQ sc (cbtfRhs M B bpos qpos sc a) k := by
-  simp [cbtfCol, memo_eq, hp.loc_qpos]
+  simp [cbtfCol, look_tab, hp.loc_qpos]
 
 theorem cbtfCol_a_qpos (hp : IsPartition bpos qpos loc) (k : Fin nq) :
     (cbtfCol M B Kk bpos qpos loc solveQ sc a).a (qpos k)
       = sc.s2 * solveQ sc (cbtfRhs M B bpos qpos sc a) k := by
-  simp [cbtfCol, memo_eq, hp.loc_qpos]
+  simp [cbtfCol, look_tab, hp.loc_qpos]
 
 theorem cbtfCol_v (i : Fin n) :
     (cbtfCol M B Kk bpos qpos loc solveQ sc a).v i
       = sc.s * (cbtfCol M B Kk bpos qpos loc solveQ sc a).d i := by
-  simp [cbtfCol, memo_eq]
+  simp [cbtfCol, look_tab]
 
 
 /-- solver specification: `tf.fsolve(f, freq).d` solves the q-set equations at this frequency -/
@@ -92,7 +92,7 @@ theorem cbtf_eom (hp : IsPartition bpos qpos loc) (hsc : sc.s * sc.c2 = -sc.c1)
       rw [hp.sum_split]
       simp [hp.loc_bpos, hp.loc_qpos]
     simp only [Pi.add_apply, hK]
-    simp [o, cbtfCol, fsum_eq_sum, memo_eq, Matrix.mulVec, dotProduct]
+    simp [o, cbtfCol, fsum_eq_sum, look_tab, Matrix.mulVec, dotProduct]
   · -- a q-set row: the q-set equations solved by `tf.fsolve`
     rw [hloc] at hi
     simp only [Sum.elim_inr] at hi
@@ -127,7 +127,7 @@ theorem cbtfCol_frc (l : Fin r) :
     let o := cbtfCol M B Kk bpos qpos loc solveQ sc a
     o.frc l = ∑ j, M (bpos l) j * o.a j + ∑ j, B (bpos l) j * o.v j
       + ∑ l', Kk (bpos l) (bpos l') * o.d (bpos l') := by
-  simp [cbtfCol, fsum_eq_sum, memo_eq]
+  simp [cbtfCol, fsum_eq_sum, look_tab]
 
 /-- `frc` in blocks: `m[bb] a + m[bq] a_q + b[bb] v_b + b[bq] v_q + k[bb] d_b` -/
 theorem cbtf_frc_blocks (hp : IsPartition bpos qpos loc) :
@@ -327,7 +327,7 @@ theorem cbtf_save_not_keyed :
     ((cbtfCall mk stale M Z K1 bp qp lc scs A).1 0).frc 0 = 2 / 3 ∧
     ((cbtfCall mk none M Z K1 bp qp lc scs A).1 0).frc 0 = 1 / 2 := by
   constructor <;>
-  · simp [cbtfCall, cbtfCol, cbtfRhs, fsum, memo_eq]
+  · simp [cbtfCall, cbtfCol, cbtfRhs, fsum, look_tab]
     norm_num
 
 /-! ### empty q-set -/
@@ -338,7 +338,7 @@ theorem cbtfE_force_eq_am_times_accel :
     (cbtfColE M B Kk bpos sc a).frc
       = (cbtfEmptyAM (blk M bpos bpos) (blk B bpos bpos) (blk Kk bpos bpos) (sc.s * sc.c2) sc.c2).mulVec a := by
   funext l
-  simp only [cbtfColE, fsum_eq_sum, memo_eq, cbtfEmptyAM, accImp, Matrix.mulVec, dotProduct,
+  simp only [cbtfColE, fsum_eq_sum, look_tab, cbtfEmptyAM, accImp, Matrix.mulVec, dotProduct,
     Matrix.add_apply, Matrix.smul_apply, blk, Matrix.of_apply, smul_eq_mul]
   rw [← Finset.sum_add_distrib, ← Finset.sum_add_distrib]
   exact Finset.sum_congr rfl fun _ _ => by ring
@@ -359,9 +359,9 @@ theorem cbtfE_vs_general (qpos0 : Fin 0 → Fin n) (loc0 : Fin n → Fin r ⊕ F
   · funext l
     rw [cbtfCol_frc, hp.sum_split, hp.sum_split (fun j => B (bpos l) j * _)]
     simp only [hab, hdb, hv, Finset.univ_eq_empty, Finset.sum_empty, add_zero]
-    simp [e, cbtfColE, fsum_eq_sum, memo_eq]
-  · rw [hdb]; simp [e, cbtfColE, memo_eq]
-  · rw [hv, hdb]; simp [e, cbtfColE, memo_eq]
+    simp [e, cbtfColE, fsum_eq_sum, look_tab]
+  · rw [hdb]; simp [e, cbtfColE, look_tab]
+  · rw [hv, hdb]; simp [e, cbtfColE, look_tab]
 
 
 /-! ### non-vacuity: the hypotheses of the `cbtf` theorems are inhabited -/
